@@ -40,6 +40,9 @@ pub enum Op {
 pub struct Case {
     pub msg: MsgSpec,
     pub ops: Vec<Op>,
+    /// the message octets given directly (hand-laid-out messages) instead of rendering `msg`
+    #[serde(default)]
+    pub raw: Option<Vec<u8>>,
 }
 
 fn clamp_ttl(raw: u32) -> u32 {
@@ -368,7 +371,13 @@ pub fn oracle_bytes(buf: &[u8], ops: &[Op], st: &mut Stats) -> Verdict {
 }
 
 pub fn oracle(case: &Case, st: &mut Stats) -> Verdict {
-    let buf = case.msg.render();
+    let buf = match &case.raw {
+        Some(b) => {
+            st.class("records-with-identical-owner-octets-valid-only-at-the-later-position");
+            b.clone()
+        }
+        None => case.msg.render(),
+    };
     if !case.msg.mutations.is_empty() {
         st.class("mutated-message");
     }
@@ -419,8 +428,67 @@ pub fn case_strategy() -> impl Strategy<Value = Case> {
         } else {
             random_ops
         };
-        Case { msg, ops }
+        Case { msg, ops, raw: None }
     })
+}
+
+/// Two or three records whose owner fields are the same octets: labels followed by a pointer to
+/// a name that lies inside the first of them. Where a field sits decides whether it is valid: the
+/// pointer is backwards only from the later records. The call sequences move back and forth
+/// over them (mark / skip / read / rewind), so that whatever a reader remembers about an owner it
+/// has parsed is put to the test at another position.
+fn twin_owner_case() -> impl Strategy<Value = Case> {
+    (
+        prop::collection::vec(prop_oneof![Just(b'x'), Just(b'A'), any::<u8>()], 0..4),
+        0u8..3,
+        prop::collection::vec(
+            prop_oneof![3 => Just(Op::ReadRr), 2 => Just(Op::SkipRr), 1 => Just(Op::Mark), 2 => Just(Op::Rewind), 1 => Just(Op::Peek { owner_calls: 1, end: PeekEnd::Skip }), 1 => Just(Op::Peek { owner_calls: 2, end: PeekEnd::Parse }), 1 => Just(Op::AtEom)],
+            0..8,
+        ),
+        any::<bool>(),
+        any::<u16>(),
+    )
+        .prop_map(|(label, target_kind, tail_ops, scripted, id)| {
+            let mut b = Vec::new();
+            b.extend_from_slice(&id.to_be_bytes());
+            b.extend_from_slice(&[0x84, 0x00, 0, 0, 0, 3, 0, 0, 0, 0]);
+            // the owner field: an optional label, then a pointer whose target is filled in below
+            let owner = |target: usize| {
+                let mut o = Vec::new();
+                if !label.is_empty() {
+                    o.push(label.len() as u8);
+                    o.extend_from_slice(&label);
+                }
+                o.push(0xc0 | (target >> 8) as u8);
+                o.push(target as u8);
+                o
+            };
+            let owner_len = owner(0).len();
+            let r1 = b.len();
+            let rdata1_at = r1 + owner_len + 10;
+            // target: 0 = the name in the first record's RDATA, 1 = the first record's own start, 2 = the last label of that RDATA name
+            let target = match target_kind {
+                0 => rdata1_at,
+                1 => r1,
+                _ => rdata1_at + 4,
+            };
+            let name = b"\x03abc\x04test\x00";
+            for (i, rdata) in [&name[..], &[192, 0, 2, 1][..], &[192, 0, 2, 2][..]].iter().enumerate() {
+                b.extend_from_slice(&owner(target));
+                b.extend_from_slice(&(if i == 0 { 99u16 } else { 1u16 }).to_be_bytes());
+                b.extend_from_slice(&[0, 1, 0, 0, 0, 60]);
+                b.extend_from_slice(&(rdata.len() as u16).to_be_bytes());
+                b.extend_from_slice(rdata);
+            }
+            let mut ops = if scripted { vec![Op::Mark, Op::SkipRr, Op::ReadRr, Op::Rewind, Op::ReadRr] } else { Vec::new() };
+            ops.extend(tail_ops);
+            Case { msg: MsgSpec { id, flags: 0, questions: vec![], answers: vec![], authority: vec![], additional: vec![], mutations: vec![] }, ops, raw: Some(b) }
+        })
+}
+
+/// The main generator plus, in one case of twelve, the hand-laid-out twin-owner messages.
+pub fn case_strategy_all() -> impl Strategy<Value = Case> {
+    prop_oneof![11 => case_strategy().boxed(), 1 => twin_owner_case().boxed()]
 }
 
 pub fn run(ctx: &Ctx, report: &mut Report) {
@@ -440,7 +508,7 @@ pub fn run(ctx: &Ctx, report: &mut Report) {
             cases: ctx.tier.pick(300_000, 6_000_000),
             max_shrink_iters: 8192,
         },
-        case_strategy,
+        case_strategy_all,
         oracle,
     );
     // Raw short buffers: every reader call on buffers of 12..=40 arbitrary octets.
